@@ -14,6 +14,9 @@ pub const QTYPES: [u16; 11] = [1, 28, 16, 15, 2, 43, 48, 46, 47, 255, 65280];
 
 pub const MAX_STEPS: usize = 120;
 
+/// STATUS, NOTIFY, UPDATE
+pub const NON_QUERY_OPCODES: [u8; 3] = [2, 4, 5];
+
 #[derive(Clone, Debug, Hash, PartialEq, Eq)]
 pub struct Query {
     pub name: u8,
@@ -27,6 +30,12 @@ pub struct Query {
     pub dok: bool,
     /// request carries an OPT record without DO (only meaningful if !dok)
     pub opt: bool,
+    /// number of additional entries in the question section (0 = the usual
+    /// single-question request). What they are follows from `case`, see
+    /// `extra_questions`.
+    pub n_extra: u8,
+    /// opcode of the request (0 = QUERY; 2 STATUS, 4 NOTIFY, 5 UPDATE)
+    pub opcode: u8,
 }
 
 impl Query {
@@ -34,7 +43,36 @@ impl Query {
         NAMES[self.name as usize].iter().map(|l| l.as_bytes().to_vec()).collect()
     }
     pub fn labels_sent(&self) -> Vec<Vec<u8>> {
-        NAMES[self.name as usize]
+        self.labels_sent_of(self.name)
+    }
+    /// Entries of the question section after the first one, as (name index,
+    /// qtype); class is the query's class. `case` 0: copies of the first
+    /// question; 1: other names, same type; 2: same name, other types.
+    pub fn extra_questions(&self) -> Vec<(u8, u16)> {
+        let ti = QTYPES.iter().position(|t| *t == self.qtype).unwrap_or(0);
+        (1..=self.n_extra as usize)
+            .map(|j| match self.case {
+                0 => (self.name, self.qtype),
+                1 => (((self.name as usize + j) % NAMES.len()) as u8, self.qtype),
+                // stay inside the ordinary data types A AAAA TXT MX NS
+                _ => (self.name, QTYPES[(ti + j) % 5]),
+            })
+            .collect()
+    }
+    /// The whole question section in lower case: the identity of "the
+    /// question" of a request (plus opcode).
+    pub fn all_questions_lower(&self) -> Vec<(Vec<Vec<u8>>, u16, u16)> {
+        let mut v = vec![(self.labels_lower(), self.qtype, self.qclass)];
+        for (n, t) in self.extra_questions() {
+            v.push((NAMES[n as usize].iter().map(|l| l.as_bytes().to_vec()).collect(), t, self.qclass));
+        }
+        v
+    }
+    pub fn is_plain(&self) -> bool {
+        self.n_extra == 0 && self.opcode == 0
+    }
+    pub fn labels_sent_of(&self, name: u8) -> Vec<Vec<u8>> {
+        NAMES[name as usize]
             .iter()
             .enumerate()
             .map(|(li, l)| {
@@ -61,8 +99,15 @@ impl Query {
     }
     pub fn render(&self) -> String {
         let n: Vec<String> = self.labels_sent().iter().map(|l| String::from_utf8_lossy(l).into_owned()).collect();
+        let mut extra = String::new();
+        for (n, t) in self.extra_questions() {
+            extra.push_str(&format!(" +q[{} {}]", NAMES[n as usize].join("."), crate::refimpl::rdata::mnemonic(t)));
+        }
+        if self.opcode != 0 {
+            extra.push_str(&format!(" opcode={}", self.opcode));
+        }
         format!(
-            "{} {}{}{}{}{}{}{}",
+            "{} {}{}{}{}{}{}{}{}",
             n.join("."),
             crate::refimpl::rdata::mnemonic(self.qtype),
             if self.qclass != 1 { " CH" } else { "" },
@@ -71,6 +116,7 @@ impl Query {
             if self.ad { " ad" } else { "" },
             if self.dok { " do" } else { "" },
             if self.opt && !self.dok { " opt" } else { "" },
+            extra,
         )
     }
 }
@@ -195,6 +241,12 @@ pub struct RespSpec {
     pub ttl_neg: u32,
     pub soa_min: u32,
     pub latency_ms: u64,
+    /// records whose CLASS differs from the question's: 0 none, 1 one of the
+    /// response's records, 2 one extra record (a CH TXT "version.bind"
+    /// style rider) appended to one of the sections, 3 all records / one
+    /// record (alternating with the fetch number). Which record and which
+    /// class follows from the serial number of the fetch (see upstream.rs).
+    pub foreign: u8,
 }
 
 #[derive(Clone, Debug, Hash)]
@@ -313,6 +365,10 @@ fn decode_spec(u: &mut Unstructured, pool: &[u32]) -> RespSpec {
     let ttl_add = if same { a0 } else { t(u) };
     let ttl_sig = if same { a0 } else { t(u) };
     let ttl_neg = if same { a0 } else { t(u) };
+    // The latency pick has five alternatives that all mean "no latency";
+    // three of them double as the selector of the foreign-class dimension (no
+    // extra octets are consumed: the decoding of everything else is as before).
+    let li = pick(u, 9);
     RespSpec {
         kind,
         ext_hi,
@@ -332,13 +388,27 @@ fn decode_spec(u: &mut Unstructured, pool: &[u32]) -> RespSpec {
         ttl_sig,
         ttl_neg,
         soa_min: [3600u32, 0, 1, 60, 86_400][(g as usize >> 7) * (1 + (f as usize & 3))],
-        latency_ms: [0u64, 0, 0, 0, 0, 1, 500, 2000, 10_000][pick(u, 9)],
+        latency_ms: [0u64, 0, 0, 0, 0, 1, 500, 2000, 10_000][li],
+        foreign: match li {
+            1 => 1,
+            2 => 2,
+            3 => 3,
+            _ => 0,
+        },
     }
 }
 
 const FIXED_ADV: [u64; 16] =
     [1000, 0, 1, 500, 999, 1001, 2000, 5000, 30_000, 59_000, 60_000, 61_000, 3_600_000, 86_400_000, 10_000_000_000, 2_000_000_000_000];
 const OFFS: [i64; 5] = [0, -1, 1, -1000, 1000];
+
+/// `pick(u, 3)` plus the position of the octet inside the picked bucket
+/// (0..=85 for the first, 0..=84 for the other two).
+fn pick3_rem(u: &mut Unstructured) -> (u8, usize) {
+    let b = byte(u) as usize;
+    let i = (b * 3) >> 8;
+    (i as u8, b - (i * 256 + 2) / 3)
+}
 
 fn decode_flags(q: &mut Query, f: u8) {
     q.rd = f & 1 == 0;
@@ -396,12 +466,44 @@ pub fn decode(data: &[u8], evict: bool) -> Case {
                             decode_flags(&mut q, f);
                         }
                     }
-                    q.case = pick(u, 3) as u8;
+                    // The octet that selects the case variant also says (by its
+                    // position inside the variant's bucket, 0..=84) whether the
+                    // repeat keeps the shape of the request or changes it:
+                    // back to a plain single-question QUERY, a second entry in
+                    // the question section, or another opcode. Zero = keep.
+                    let (case, rem) = pick3_rem(u);
+                    q.case = case;
+                    match rem {
+                        0..=69 => {}
+                        70..=74 => {
+                            q.n_extra = 0;
+                            q.opcode = 0;
+                        }
+                        75..=80 => {
+                            q.n_extra = 1;
+                            q.opcode = 0;
+                        }
+                        _ => {
+                            q.n_extra = 0;
+                            q.opcode = NON_QUERY_OPCODES[rem % 3];
+                        }
+                    }
                     q
                 } else {
+                    let name = pick(u, NAMES.len()) as u8;
+                    // the octet that selects the case variant also selects (by
+                    // its position inside the variant's bucket) the rarer
+                    // request shapes the cache must forward without caching
+                    let (case, rem) = pick3_rem(u);
+                    let (n_extra, opcode) = match rem {
+                        0..=73 => (0, 0),
+                        74..=79 => (1, 0),
+                        80..=81 => (2, 0),
+                        _ => (0, NON_QUERY_OPCODES[rem % 3]),
+                    };
                     let mut q = Query {
-                        name: pick(u, NAMES.len()) as u8,
-                        case: pick(u, 3) as u8,
+                        name,
+                        case,
                         qtype: QTYPES[pick(u, QTYPES.len())],
                         qclass: 1,
                         rd: true,
@@ -409,6 +511,8 @@ pub fn decode(data: &[u8], evict: bool) -> Case {
                         ad: false,
                         dok: false,
                         opt: false,
+                        n_extra,
+                        opcode,
                     };
                     let f = byte(u);
                     decode_flags(&mut q, f);
